@@ -65,7 +65,7 @@ ASSUMPTIONS = [
     'is a known finding: only a fixed minority of runs uses CELL',
 ]
 
-KINDS = ('iterative', 'array', 'plain', 'load', 'trim', 'iter-acyclic')
+KINDS = ('iterative', 'array', 'plain', 'load', 'trim', 'iter-acyclic', 'failing')
 
 
 MIXED = {'quick': (1152, 2400), 'thorough': (JK * JK * 60, JK * JK * 60 + 40000)}
@@ -214,6 +214,34 @@ def prog_deep(rnd, tname):
     return {'kind': 'deep', 'spec': spec, 'ops': ops}
 
 
+def prog_failing(rnd, tname):
+    """evaluations that raise (a function pycel does not have, or a circular reference in a
+    workbook that is not compiled for iterative calculation) next to others that work"""
+    from . import c09
+    p = prog_plain(rnd, tname, iterative=rnd.random() < 0.4)
+    dag = wbgen.Dag(p['spec'])
+    forms = [a for a in dag.formulas() if 'cse' not in dag.cell[a]]
+    if not forms:
+        return p
+    site = rnd.choice(forms)
+    if rnd.random() < 0.7 or p['spec'].get('iter'):
+        p['spec'] = c09.wrap_spec(p['spec'], site, 'unknown')
+    else:
+        # a cell that refers to itself: RecursionError -> pycel's own error
+        for c in p['spec']['cells']:
+            if c['a'] == site:
+                c['f'] = c['f'] + '+' + wbgen.split_addr(site)[1]
+    deps = sorted(dag.descendants(site))
+    evals = [{'op': 'eval', 'a': rnd.choice([site] + deps), 'form': 'cell'}
+             for _ in range(rnd.choice((1, 2, 3)))]
+    ops = list(p['ops'])
+    for e in evals:
+        ops.insert(rnd.randint(0, len(ops)), e)
+    p['ops'] = ops
+    p['kind'] = 'failing'
+    return p
+
+
 def prog_slowplug(rnd, tname):
     """formulas that call functions of a plugin module whose import takes a while (the first
     evaluation of a compiler imports its function modules)"""
@@ -242,6 +270,8 @@ def draw_program(rnd, tname, kind):
         return p
     if kind == 'deep':
         p = prog_deep(rnd, tname)
+    elif kind == 'failing':
+        p = prog_failing(rnd, tname)
     elif kind == 'iterative':
         p = prog_iterative(rnd, tname)
     elif kind == 'array':
@@ -262,7 +292,7 @@ def draw_program(rnd, tname, kind):
         p['build'] = 'outside'
     if kind == 'deep':
         p['build'] = 'inside'
-    if kind in ('plain', 'iter-acyclic', 'array', 'iterative') and rnd.random() < 0.25:
+    if kind in ('plain', 'iter-acyclic', 'array', 'iterative', 'failing') and rnd.random() < 0.25:
         p['xlsx'] = True       # compiled from a workbook file instead of an in-memory workbook
     p['warm'] = rnd.random() < 0.4
     return p
